@@ -26,7 +26,8 @@ set_option linter.unusedVariables false
 /-- `XMatrix.equation()` of all eight classes, with the sign of every entry -/
 theorem equationVectors_match : Gen.equationVectors = Spec.relVectorsRaw := by decide
 
-/-- the spec relation is the evaluation of those vectors: `lhs = M * rhs` -/
+/-- (definition check, `Iff.rfl` per case: two spellings of the SPEC, no claim about the code) the spec
+    relation is the evaluation of those vectors: `lhs = M * rhs` -/
 theorem rel_eq_relVec (X : Rep) (m : M2 K) (Z0 : K) (p : Port K) : rel X m Z0 p ↔ relVec X m Z0 p := by
   cases X <;> exact Iff.rfl
 
@@ -177,6 +178,7 @@ def CTree.eval (Z0 : K) : CTree K → Stage K
   | .leaf t => t
   | .node l r => TPN_chain (l.eval Z0) (r.eval Z0) Z0
 
+/-- (helper, `Or.inl rfl`) the result of a chain is B-native, so its side condition is trivial -/
 theorem okModel_chain (a b : Stage K) (Z0 : K) : okModel (TPN_chain a b Z0).rep .B (TPN_chain a b Z0).m Z0 :=
   Or.inl rfl
 
@@ -223,7 +225,8 @@ theorem chain_matrix_is_product (tr : CTree K) (Z0 : K) :
     simp only [TPN_chain, TPN_Chain, TPN_Bparams]
 
 
-/-- `append`, `cascade`, `*` are `chain`; `prepend` is `chain` with the operands exchanged -/
+/-- (table check, four `rfl`s on the GENERATED aliases: fails to build if the source changes an alias)
+    `append`, `cascade`, `*` are `chain`; `prepend` is `chain` with the operands exchanged -/
 theorem chain_spellings (a b : Stage K) (Z0 : K) :
     TPN_append a b Z0 = TPN_chain a b Z0 ∧ TPN_cascade a b Z0 = TPN_chain a b Z0 ∧
     TPN_mul a b Z0 = TPN_chain a b Z0 ∧ TPN_prepend a b Z0 = TPN_chain b a Z0 :=
@@ -308,7 +311,7 @@ theorem inverse_hybrid2_sound (a b : Stage K) (Z0 : K) (ha : okModel a.rep .G a.
   · rw [c5, e1, e3, c2, c4]; ring
   · rw [c6, e2, e4, c2, c4]; ring
 
-/-- the method spellings of the four connections -/
+/-- (table check, four `rfl`s on the GENERATED aliases) the method spellings of the four connections -/
 theorem connection_spellings (a b : Stage K) (Z0 : K) :
     TPN_parallel a b Z0 = TPN_Par2 a b Z0 ∧ TPN_series a b Z0 = TPN_Ser2 a b Z0 ∧
     TPN_hybrid a b Z0 = TPN_Hybrid2 a b Z0 ∧ TPN_inverse_hybrid a b Z0 = TPN_InverseHybrid2 a b Z0 :=
